@@ -1,4 +1,5 @@
 import Oas3Model.Proofs.Router
+import Oas3Model.Props.C03
 import Oas3Model.Model.Server
 import Oas3Model.Model.ServerParams
 import Oas3Model.Props.C04
@@ -259,5 +260,47 @@ example : dispatch tbl mGET ["pets".toList, "mine".toList] = .handler 3 ∧ disp
     dispatch tbl "DELETE".toList ["pets".toList, "mine".toList] = .methodNotAllowed ∧ dispatch tbl mGET ["y".toList] = .notFound ∧
     dispatch tbl mGET ["x".toList, [] ] = .notFound := by decide +kernel
 end Routing
+
+/-! ### captures of the route pattern and the serde names of the path struct's members (finding F05-7) -/
+
+/-- the identifier as serde knows it: without the raw prefix -/
+def unrawF : List Char → List Char
+  | 'r' :: '#' :: r => r
+  | s => s
+
+theorem find_map_strip (l : List (List Char × List Char)) (n : List Char) :
+    (l.map fun p => (p.1, unrawF p.2)).find? (fun p => p.1 == n) = (l.find? (fun p => p.1 == n)).map (fun p => (p.1, unrawF p.2)) := by
+  induction l with
+  | nil => rfl
+  | cons a r ih =>
+    simp only [List.map, List.find?]
+    cases h : (a.1 == n) <;> simp [ih]
+
+/-- looking a DECLARED parameter up in the table without raw prefixes gives the serde name of its member -/
+theorem fieldOf_strip (decl : List (List Char × List Char)) (n : List Char) (hd : ∃ p ∈ decl, p.1 = n) :
+    fieldOf (decl.map fun p => (p.1, unrawF p.2)) n = unrawF (fieldOf decl n) := by
+  unfold fieldOf
+  rw [← List.map_reverse, find_map_strip]
+  cases h : decl.reverse.find? (fun p => p.1 == n) with
+  | some p => rfl
+  | none =>
+    exfalso
+    obtain ⟨p, hp, e⟩ := hd
+    have := List.find?_eq_none.mp h p (List.mem_reverse.mpr hp)
+    simp [e] at this
+
+/-- the route pattern of an accepted segment, built from the table without raw prefixes: the template text with every
+parameter written as `{…}` around the name looked up in that table — for a declared parameter the SERDE name of its member
+(`fieldOf_strip`): `/k/{type}` for the member `r#type` (finding F05-7 was the prefix showing up in the capture) -/
+theorem capture_render (decl : List (List Char × List Char)) (s : List Char) (seg : Segment)
+    (h : parseSegment (decl.map fun p => (p.1, unrawF p.2)) s = .ok seg) :
+    ∃ ps, tokenize s = .ok ps ∧
+      axumSegment seg = (ps.map (fun p => match p with
+        | .lit l => l
+        | .param n => '{' :: fieldOf (decl.map fun p => (p.1, unrawF p.2)) n ++ ['}'])).flatten := by
+  obtain ⟨ps, hp, e⟩ := Oas3.Props.C03.axum_segment_render _ s seg h
+  exact ⟨ps, hp, by rw [e]; rfl⟩
+
+example : fieldOf ([("type".toList, "r#type".toList)].map fun p => (p.1, unrawF p.2)) "type".toList = "type".toList := by decide
 
 end Oas3.Props.C05
